@@ -770,6 +770,7 @@ func genC13(c *Ctx) {
 				t := nestedTree(n)
 				c13Dump(c, "corpus-F34", []*tnode{t})
 				c13Parse(c, "corpus-F34", t.enc())
+				c13CliDump(c, "depth-limit", []*tnode{t})
 				// the nesting limit next to EMPTY constructed leaves (which have no children to descend into)
 				for _, leaf := range []*tnode{cons(0, 16), cons(2, 0), cons(0, 17)} {
 					if n >= 1 {
@@ -982,6 +983,9 @@ func genC13(c *Ctx) {
 		}
 		tag := "random"
 		all(tag, t)
+		if i%30 == 7 {
+			c13CliDump(c, "random", []*tnode{t})
+		}
 		if i%10 == 0 {
 			c13Neighbours(c, "nb", t.enc(), c13CountNodes(t) < 12)
 		}
